@@ -132,13 +132,58 @@ func (s *ledgerSim) checkBalances(n *node, addrs []model.Addr) {
 			spentByPool[in] = true
 		}
 	}
+	// expectations first: a 64-bit overflow anywhere in the exact sums makes the answer (or an error) undecided
+	type expBal struct {
+		coins, hours, pcoins, phours *big.Int
+		has, undecided             bool
+	}
+	exps := make([]expBal, len(addrs))
+	anyUndecided := false
+	for i, a := range addrs {
+		e := expBal{coins: new(big.Int), hours: new(big.Int), pcoins: new(big.Int), phours: new(big.Int)}
+		for id, u := range m.Unspent {
+			if u.Addr != a {
+				continue
+			}
+			e.has = true
+			h, ov, inter := model.AccruedHours(u, headTime)
+			if ov || inter {
+				e.undecided = true
+			}
+			e.coins.Add(e.coins, bigU(u.Coins))
+			e.hours.Add(e.hours, h)
+			if !spentByPool[id] {
+				e.pcoins.Add(e.pcoins, bigU(u.Coins))
+				e.phours.Add(e.phours, h)
+			}
+		}
+		for _, h := range m.PoolHashes() {
+			for _, o := range m.Pool[h].Txn.Out {
+				if o.Addr == a {
+					e.pcoins.Add(e.pcoins, bigU(o.Coins))
+					e.phours.Add(e.phours, bigU(o.Hours))
+				}
+			}
+		}
+		if e.coins.BitLen() > 64 || e.hours.BitLen() > 64 || e.pcoins.BitLen() > 64 || e.phours.BitLen() > 64 {
+			e.undecided = true
+		}
+		if e.undecided {
+			anyUndecided = true
+		}
+		exps[i] = e
+	}
 	bps, err := n.v.GetBalanceOfAddresses(cAddrs(addrs))
 	if err != nil {
 		if stale {
 			c.Count("probe.balance_error_with_stale_pool")
 			return
 		}
-		c.Violate("balance-error", "balance-error", "node %d GetBalanceOfAddresses failed although every pooled input is unspent: %v", n.id, err)
+		if anyUndecided {
+			c.Undecided++
+			return
+		}
+		c.Violate("balance-error", "balance-error", "node %d GetBalanceOfAddresses failed although every pooled input is unspent and no sum overflows: %v", n.id, err)
 		return
 	}
 	if len(bps) != len(addrs) {
@@ -146,42 +191,9 @@ func (s *ledgerSim) checkBalances(n *node, addrs []model.Addr) {
 		return
 	}
 	for i, a := range addrs {
-		coins, hours := new(big.Int), new(big.Int)
-		pcoins, phours := new(big.Int), new(big.Int)
-		undecided := false
-		has := false
-		for id, u := range m.Unspent {
-			if u.Addr != a {
-				continue
-			}
-			has = true
-			h, ov, inter := model.AccruedHours(u, headTime)
-			if ov || inter {
-				undecided = true
-			}
-			coins.Add(coins, bigU(u.Coins))
-			hours.Add(hours, h)
-			if !spentByPool[id] {
-				pcoins.Add(pcoins, bigU(u.Coins))
-				phours.Add(phours, h)
-			}
-		}
-		if has {
-			// incoming outputs only count for addresses that already hold unspents? No: the
-			// statement says predicted = confirmed - outgoing + incoming for the address.
-		}
-		for _, h := range m.PoolHashes() {
-			for _, o := range m.Pool[h].Txn.Out {
-				if o.Addr == a {
-					pcoins.Add(pcoins, bigU(o.Coins))
-					phours.Add(phours, bigU(o.Hours))
-				}
-			}
-		}
-		if coins.BitLen() > 64 || hours.BitLen() > 64 || pcoins.BitLen() > 64 || phours.BitLen() > 64 {
-			undecided = true
-		}
-		if undecided {
+		e := exps[i]
+		coins, hours, pcoins, phours, has := e.coins, e.hours, e.pcoins, e.phours, e.has
+		if e.undecided {
 			c.Undecided++
 			continue
 		}
@@ -238,9 +250,10 @@ func (s *ledgerSim) checkHistory(n *node, addrs []model.Addr) {
 		}
 		c.Count("probe.history_uxout_compared")
 	}
-	unk, _, err := n.v.GetUxOutByID(cipher.SHA256(model.Sum([]byte("nope"))))
-	if err != nil || unk != nil {
-		c.Violate("history-uxout", "unknown-id", "node %d returned %v / %v for an unknown output id", n.id, unk, err)
+	// an unknown id must not yield an output (an error or an empty answer are both fine)
+	unk, _, _ := n.v.GetUxOutByID(cipher.SHA256(model.Sum([]byte("nope"))))
+	if unk != nil {
+		c.Violate("history-uxout", "unknown-id", "node %d returned an output for an id that was never created", n.id)
 		return
 	}
 	// all outputs ever received by the addresses
@@ -323,7 +336,8 @@ func (s *ledgerSim) checkBlockQueries(n *node) {
 		sim.Harnessf("GetSignedBlockBySeq: %v", err)
 	}
 	if seq < uint64(len(m.Chain)) {
-		if b == nil || mHeader(&b.Head) != m.Chain[seq].Head || model.Sig(b.Sig) != m.Chain[seq].Sig {
+		// (the publisher signs its own genesis block with a fresh nonce, so that one signature is its own)
+		if b == nil || mHeader(&b.Head) != m.Chain[seq].Head || (model.Sig(b.Sig) != m.Chain[seq].Sig && !(seq == 0 && n.publisher)) {
 			c.Violate("block-query", "by-seq", "node %d block %d differs from the accepted chain", n.id, seq)
 			return
 		}
